@@ -38,10 +38,32 @@ def plan(prop, tier, seed):
 # ------------------------------------------------------------------------------------------ helpers
 
 
+_FRONT = {"n": 0, "prev": None}
+
+
 def new_sim(text):
     from architecture_simulator.simulation.toy_simulation import ToySimulation
 
-    s = ToySimulation()
+    _FRONT["n"] += 1
+    s = None
+    if _FRONT["n"] % 4 == 0:
+        # the way the web front end gets its machine (gui.webgui.get_toy_simulation(), asked again on every reset) - and
+        # the session it handed out before is abandoned in the MIDDLE of an instruction
+        try:
+            from architecture_simulator.gui import webgui
+
+            prev = _FRONT["prev"]
+            if prev is not None:
+                try:
+                    prev.load_program("INC\nINC\nINC")
+                    prev.first_cycle_step()
+                except Exception:
+                    pass
+            s = _FRONT["prev"] = webgui.get_toy_simulation()
+        except Exception:
+            s = None
+    if s is None:
+        s = ToySimulation()
     s.load_program(text)
     return s
 
